@@ -9,12 +9,20 @@ import Verif.Model.Token
        hosts=<xname:v6:parses:xnorm:xstripped,…>
        provs=<ty:xname:xkid:xclient:xaudience:xissuer:xidEsc:init:sshEnabled:disableRenewal:renewAfterExpiry,…>
        parsed=0|1 kid= iss= sub= aud=<xraw:xstripped,…> exp=<s|!> nbf= iat= azp= tid= email= lbt=0|1
-       frag= fragesc= hasssh=0|1 sshtype=0|1 nebssh=0|1 [nebsans=0|1] pop=<!|after:before:host:user:serialIsSub> cr=<8 bits,…> [cl=<5 bits,…>]
+       frag= fragesc= hasssh=0|1 sshtype=0|1 nebssh=0|1 [nebsans=0|1] sshkeys=<(u|h)(o|r|f),…> pop=<!|after:before:host:user:serialIsSub:signer index|!> cr=<8 bits,…> [cl=<5 bits,…>]
      -> ok:x<name of the answering provisioner> | reject | crash
         with http=1 (request sent through the api handler, database tables diffed):
         ok | reject:pre (refused before UseToken) | reject:post (refused by the provisioner) | crash
   aud hosts=<…> frag=<!|xescaped>
      -> the seven rendered lists (`xraw|xstripped` items, lists joined by `;`)
+  coll ops=<s:xid:xname:xtok | u:xid:xname:xtok | r:xid,…> keys=<xkey,…>
+     -> res=<1/0 per operation> id=<…> name=<…> tok=<…>: what Load / LoadByName / LoadByTokenID return
+        for every key after the operations (`xid/xname/xtok` or `-`)
+  convert type=<Go type> exp=x<projection of the provisioner as configured>
+     -> conv:<type>:<that projection> (ProvisionerToLinkedca ; ProvisionerToCertificates must preserve it)
+  apisurface / routes                            -> the model's tables `apiSurface`, `apiRoutes`
+  flow fn=<function of authority/authorize.go>   -> its statement skeleton from the model's table `flows`
+  methods type=<provisioner Go type>             -> the Authorize* methods it declares (`declared`)
   handler name=<Go function name>
      -> the control-flow paths recorded in the model's table (events joined by `,`, paths by `;`)
 -/
@@ -76,10 +84,21 @@ def cl? (t : String) : Option Cl :=
   | [a, b, c, d, e] => some ⟨a, b, c, d, e⟩
   | _ => none
 
+def sshKey? (t : String) : Option SshKey :=
+  match t.toList with
+  | [k, c] => do
+    let user ← if k = 'u' then some true else if k = 'h' then some false else none
+    let cls ← if c = 'o' then some KeyClass.own else if c = 'r' then some .retired else if c = 'f' then some .federated else none
+    pure ⟨user, cls⟩
+  | _ => none
+
 def pop? (t : String) : Option (Option Pop) :=
   if t = "!" then some none else
   match t.splitOn ":" with
-  | [a, b, h, u, sr] => do pure (some ⟨(← a.toNat?), (← b.toNat?), (← bool? h), (← bool? u), (← bool? sr)⟩)
+  | [a, b, h, u, sr] => do pure (some ⟨(← a.toNat?), (← b.toNat?), (← bool? h), (← bool? u), (← bool? sr), none⟩)
+  | [a, b, h, u, sr, sg] => do
+    let signer ← if sg = "!" then some none else sg.toNat?.map some
+    pure (some ⟨(← a.toNat?), (← b.toNat?), (← bool? h), (← bool? u), (← bool? sr), signer⟩)
   | _ => none
 
 def kvs (line : String) : List (String × String) :=
@@ -96,7 +115,8 @@ def evalAuth (kv : List (String × String)) : Option String := do
     provs := (← list? prov? (← lookup kv "provs"))
     sshCA := (← bool? (← lookup kv "ssh"))
     disableIat := (← bool? (← lookup kv "noiat"))
-    startTime := (← (← lookup kv "start").toInt?) }
+    startTime := (← (← lookup kv "start").toInt?)
+    sshKeys := (← list? sshKey? ((lookup kv "sshkeys").getD "-")) }
   let tok : Tok := {
     parsed := (← bool? (← lookup kv "parsed"))
     kid := (← str? (← lookup kv "kid"))
@@ -149,14 +169,71 @@ def evalAud (kv : List (String × String)) : Option String := do
 def evalHandler (kv : List (String × String)) : Option String := do
   let n ← lookup kv "name"
   match handlerPaths.find? (·.1 = n) with
-  | some (_, ps) => pure (";".intercalate (ps.map fun p => ",".intercalate (p.map Ev.show)))
+  | some (_, ps) => pure ("paths:" ++ n ++ ":" ++ ";".intercalate (ps.map fun p => ",".intercalate (p.map Ev.show)))
   | none => pure "unknown-handler"
+
+def evalFlow (kv : List (String × String)) : Option String := do
+  let n ← lookup kv "fn"
+  match flows.find? (·.1 = n) with
+  | some (_, f) => pure ("flow:" ++ n ++ ":" ++ Fl.showList f)
+  | none => pure "unknown-function"
+
+def evalMethods (kv : List (String × String)) : Option String := do
+  let n ← lookup kv "type"
+  match declared.find? (·.1 = n) with
+  | some (_, ms, base) => pure ("methods:" ++ n ++ ":" ++ ",".intercalate ms ++ (if base then ";base" else ""))
+  | none => pure "unknown-type"
+
+def cp? (a b c : String) : Option CP := do pure ⟨(← str? a), (← str? b), (← str? c)⟩
+
+def cop? (t : String) : Option COp :=
+  match t.splitOn ":" with
+  | ["s", a, b, c] => (cp? a b c).map .store
+  | ["u", a, b, c] => (cp? a b c).map .update
+  | ["r", a] => (str? a).map .remove
+  | _ => none
+
+def showCP : Option CP → String
+  | some p => "x" ++ hex p.id ++ "/x" ++ hex p.name ++ "/x" ++ hex p.tok
+  | none => "-"
+
+/-- run the operations on an empty collection; print which succeeded and, for every key of the
+    universe, what `Load`, `LoadByName` and `LoadByTokenID` return -/
+def evalColl (kv : List (String × String)) : Option String := do
+  let ops ← list? cop? (← lookup kv "ops")
+  let keys ← list? str? (← lookup kv "keys")
+  let (c, res) := ops.foldl (fun (acc : Coll × String) o =>
+    let r := match o with
+      | .store p => acc.1.store p
+      | .remove id => acc.1.remove id
+      | .update p => acc.1.update p
+    (r.1, acc.2 ++ (if r.2 then "1" else "0"))) (Coll.empty, "")
+  let tab := fun (m : CMap) => ",".intercalate (keys.map fun k => showCP (m k))
+  pure ("res=" ++ res ++ " id=" ++ tab c.byID ++ " name=" ++ tab c.byName ++ " tok=" ++ tab c.byTok ++
+    " consistent=1")   -- `collection_consistent`: the model's indexes always agree
+
+def evalSurface : String :=
+  "apisurface:" ++ ";".intercalate (apiSurface.map fun e =>
+    e.1 ++ ":auth=" ++ (if e.2.1 then "1" else "0") ++ ":" ++ ",".intercalate e.2.2)
+
+def evalRoutes : String :=
+  "routes:" ++ ";".intercalate (apiRoutes.map fun r => r.1 ++ " " ++ r.2.1 ++ " " ++ r.2.2)
 
 def eval (line : String) : Option String :=
   match fields line with
   | "auth" :: _ => evalAuth (kvs line)
   | "aud" :: _ => evalAud (kvs line)
   | "handler" :: _ => evalHandler (kvs line)
+  | "convert" :: _ => do
+    -- the admin-database round trip must be the identity on the credential-relevant projection
+    let kv := kvs line
+    let e ← str? (← lookup kv "exp")
+    pure ("conv:" ++ (← lookup kv "type") ++ ":" ++ String.ofList (e.map Char.ofNat))
+  | "apisurface" :: _ => some evalSurface
+  | "routes" :: _ => some evalRoutes
+  | "coll" :: _ => evalColl (kvs line)
+  | "flow" :: _ => evalFlow (kvs line)
+  | "methods" :: _ => evalMethods (kvs line)
   | _ => none
 
 end C01
